@@ -1,3 +1,4 @@
+import Props.CodecFacts
 import Props.C12
 open Model.C12
 #print axioms toPlain_total
@@ -11,3 +12,25 @@ open Model.C12
 #print axioms decoded_has_clock
 #print axioms decoded_safe
 #print axioms load_skips_undecodable
+open Model.CodecFacts in
+#print axioms atlas_entry_match_model
+open Model.CodecFacts in
+#print axioms atlas_entryV1_match_model
+open Model.CodecFacts in
+#print axioms atlas_manifest_match_model
+open Model.CodecFacts in
+#print axioms signed_keys_match_model
+open Model.CodecFacts in
+#print axioms signed_map_exact
+open Model.CodecFacts in
+#print axioms hashable_exact
+open Model.CodecFacts in
+#print axioms create_flow
+open Model.CodecFacts in
+#print axioms verify_flow
+open Model.CodecFacts in
+#print axioms presign_flow
+open Model.CodecFacts in
+#print axioms decrypt_flow
+open Model.CodecFacts in
+#print axioms jsonable_v2_flow
